@@ -127,6 +127,8 @@ class Check:
         self.transitions = 0
         self.traces_validated = 0
         self.tlc_runs = []
+        self.obligations = 0        # TLAPS proof obligations (un-mutated runs)
+        self.discharged = 0
         self.assumptions = []
         self.notes = []
         self.drift = []
@@ -314,6 +316,9 @@ class Check:
                 raise MachineryFailure("tlapm output not understood:\n" +
                                        out[-2000:])
             res = (int(m.group(2)) - int(m.group(1)), int(m.group(2)))
+        if not mutate:
+            self.obligations += res[1]
+            self.discharged += res[0]
         self.tlc_runs.append(dict(module=module, cfg="tlapm" + (
             " (mutated)" if mutate else ""), rc=0, generated=None,
             distinct=None, depth=None,
@@ -380,6 +385,10 @@ class Check:
             "model_drift": self.drift,
             "notes": self.notes,
         }
+        if self.obligations:
+            cov["obligations"] = int(self.obligations)
+            cov["discharged"] = int(self.discharged)
+            cov["checker_cmd"] = "tlapm (TLAPS 1.6.0-pre; SMT, Zenon, Isabelle)"
         cov.update(self.extra)
         doc = {"property_id": self.pid, "tier": self.tier, "seed": self.seed,
                "level": self.level, "coverage": cov,
